@@ -2,7 +2,6 @@
 package remember
 
 import (
-	"bytes"
 	"context"
 	"crypto/rand"
 	"crypto/sha512"
@@ -104,8 +103,10 @@ func Authenticate(ab *authboss.Authboss, w http.ResponseWriter, req **http.Reque
 		return nil
 	}
 
-	index := bytes.IndexByte(rawToken, ';')
-	if index < 0 {
+	// The nonce has a fixed size and the PID may itself contain ';'
+	// (e.g. OAuth2 PIDs), so the separator is found from the end.
+	index := len(rawToken) - nNonceSize - 1
+	if index < 0 || rawToken[index] != ';' {
 		authboss.DelCookie(w, authboss.CookieRemember)
 		logger.Infof("failed to decode remember me token, deleting cookie")
 		return nil
